@@ -1770,7 +1770,7 @@ class Pipeline:
 
         axes = self.mapspec_axes
         for name in func.mapspec.input_names:
-            if axis not in axes[name]:
+            if axis not in axes.get(name, ()):
                 continue
             if name in root_args:
                 if axis in axes[name]:
